@@ -69,6 +69,15 @@ CHECKS = {
         design_ref="3 C15",
         technique="symbolic execution of the real Python functions with CrossHair (z3); regex interpreter over the code's own patterns; replay with the real re module",
     ),
+    "C03": dict(
+        category="model_checking",
+        text="Bounded symbolic model checking of one transition of the session state machine: from every class of state connect() can "
+        "establish (plus, as a sanity net, every state one further statement reaches) the real execute() runs one statement of 12 kinds "
+        "with symbolic names/qualification against a DuckDB catalog stand-in; invariant, name resolution, 90105/90106 guards, "
+        "failure frame conditions and non-interference with a second session are asserted; histories follow by induction.",
+        design_ref="3 C03",
+        technique="CrossHair (z3) exploration of one inductive step of the real state-changing code over a catalog stub; replay on real DuckDB",
+    ),
 }
 
 NOT_YET = "not claimed yet: check not built in this round (see DESIGN.md 7 for the order of work)"
